@@ -34,10 +34,20 @@ def entry_points(tmp):
     def fs(d, v, how):
         root = tempfile.mkdtemp(dir=tmp)
         sink = FileSystemSink(root, allow_custom=False)
-        if how == 'sink.add':
-            sink.add(d, version=v)
+        if how.startswith('sink.add'):
+            # what the sink stores is the object as it was validated: a later read that names no version recognises the version it was stored under
+            kw = {}
+            if 'pretty=False' in how: kw['pretty'] = False
+            data = json.dumps(d) if 'text' in how else [d] if 'list' in how else d
+            sink.add(data, version=v, **kw) if kw else sink.add(data, version=v)
             f = [os.path.join(dp, x) for dp, _, fn in os.walk(root) for x in fn][0]
-            return stix2.parse(json.load(open(f)), version=v)
+            stored = json.load(open(f))
+            if stored.get('type') == 'bundle': stored = stored['objects'][0]
+            first = stix2.parse(dict(stored), version=v)
+            if v is not None:
+                again = stix2.parse(dict(stored))
+                if pkg_of(again) != pkg_of(first): raise AssertionError(f'stored under version {v} as {pkg_of(first)}, but the stored file is recognised as {pkg_of(again)} when no version is named')
+            return first
         # write the raw JSON ourselves, then read through the source with a version
         tdir = os.path.join(root, d['type'], d['id']); os.makedirs(tdir)
         json.dump(d, open(os.path.join(tdir, '20170101000000000000.json'), 'w'))
@@ -76,6 +86,8 @@ def entry_points(tmp):
         'MemoryStore.load_from_file': mem_file,
         'MemoryStore.add after unversioned add': twice,
         'FileSystemSink.add': lambda d, v: fs(d, v, 'sink.add'),
+        'FileSystemSink.add(text)': lambda d, v: fs(d, v, 'sink.add text'), 'FileSystemSink.add(text, pretty=False)': lambda d, v: fs(d, v, 'sink.add text pretty=False'),
+        'FileSystemSink.add(dict, pretty=False)': lambda d, v: fs(d, v, 'sink.add pretty=False'), 'FileSystemSink.add(list)': lambda d, v: fs(d, v, 'sink.add list'),
         'FileSystemSource.get': lambda d, v: fs(d, v, 'source.get'),
         'FileSystemSource.all_versions': lambda d, v: fs(d, v, 'source.all_versions'),
         'FileSystemSource.query': lambda d, v: fs(d, v, 'source.query'),
@@ -92,7 +104,7 @@ def run(chk):
                        'filesystem._check_object_from_file are symbolically executed: dict_to_stix2 looks the class up under the requested version and under the '
                        'detected one only when none was requested, passes allow_custom/interoperability on unchanged; the store functions parse '
                        'everything under their own version with interoperability False; detection returns V for every shape the library emits for V.  '
-                       'B: 17 entry points (dictionary, text and already-built object inputs) x 4 dictionaries x {None, 2.0, 2.1}: class returned equals that of a direct parse; identifiers only the relaxed mode admits '
+                       'B: 21 entry points (dictionary, list, text and already-built object inputs; sink options) x 4 dictionaries x {None, 2.0, 2.1}: class returned equals that of a direct parse; identifiers only the relaxed mode admits '
                        'are refused wherever a version is named.')
     chk.assume('sort of an actual argument is derived from the caller\'s own role-named parameters, literals and self.<role>; other expressions are recorded as not decided',
                'taxii sources/sinks are covered by the call-site obligations only (no TAXII client in the sandbox)')
@@ -121,6 +133,7 @@ def run(chk):
             en, dn, v = case; d = dicts[dn]
             def outcome(fn):
                 try: return ('ok', pkg_of(fn()))
+                except AssertionError as ex: return ('stored-differently', str(ex))
                 except stix2.exceptions.STIXError as ex: return ('err', type(ex).__name__)
                 except (ValueError, TypeError) as ex: return ('err', type(ex).__name__)
             want = outcome(lambda: stix2.parse(dict(d), version=v))
